@@ -76,7 +76,7 @@ def gen_block(rng, gates, prof, n, length, meas_avail, depth, sweep_count):
         kinds += ['sweep']
     if prof.repeat and depth < 2:
         kinds += ['repeat']
-    kinds += ['mpad']
+    kinds += ['mpad', 'tick']
     if prof.noise:
         kinds += ['noise'] * 4
     if prof.annotations:
@@ -191,6 +191,9 @@ def gen_block(rng, gates, prof, n, length, meas_avail, depth, sweep_count):
             else:
                 ts = [q, bit]
             out.append(Instr(nm, [], ts))
+        elif k == 'tick':
+            if rng.random() < 0.4:
+                out.append(Instr('TICK'))
         elif k == 'mpad':
             if rng.random() < 0.3:
                 ts = [T('q', rng.randrange(2)) for _ in range(rng.choice([1, 2]))]
